@@ -12,6 +12,8 @@ import (
 	"github.com/samsarahq/thunder/batch"
 	cl "github.com/samsarahq/thunder/concurrencylimiter"
 	"pgregory.net/rapid"
+
+	"verifharness/ev"
 )
 
 // The limiter's one in-tree client: batch.Func.Invoke gives a joiner's token up while it waits
@@ -105,7 +107,7 @@ func runBatchLimit(c BCase) (nt bool, err error) {
 	go func() { wg.Wait(); close(done) }()
 	select {
 	case <-done:
-	case <-time.After(10 * time.Second):
+	case <-time.After(ev.Patience(10 * time.Second)):
 		return false, fmt.Errorf("callers still blocked after 10s (timers are <= 20ms)")
 	}
 	if e := excess.Load(); e != nil {
